@@ -26,17 +26,17 @@ def run(unit, em):
         for n in fn.walk(lambdas=False):
             if n['k'] != 'IfStmt':
                 continue
-            c = strip(n['c'])
             v = None
-            if c is not None and c['k'] == 'UnaryOperator' and c.get('op') == '!':
-                x = strip(c['ch'][0])
-                if x is not None and x['k'] == 'DeclRefExpr' and x.get('dk') == 'local':
-                    v = x['d']
-            elif c is not None and c['k'] == 'BinaryOperator' and c.get('op') == '==':
-                a, b = strip(c['ch'][0]), strip(c['ch'][1])
-                for x, y in ((a, b), (b, a)):
-                    if x is not None and y is not None and x['k'] == 'DeclRefExpr' and x.get('dk') == 'local' and y.get('v') == 0:
-                        v = x['d']
+            from .prov import bool_leaves
+            for c in bool_leaves(fn, n['c']):
+                # `!C` arrives here as the leaf C itself; `C == 0` as the comparison
+                if c is not None and c['k'] == 'DeclRefExpr' and c.get('dk') == 'local' and unit.ty(c).strip() != 'bool':
+                    v = c['d']
+                elif c is not None and c['k'] == 'BinaryOperator' and c.get('op') == '==':
+                    a, b = strip(c['ch'][0]), strip(c['ch'][1])
+                    for x, y in ((a, b), (b, a)):
+                        if x is not None and y is not None and x['k'] == 'DeclRefExpr' and x.get('dk') == 'local' and y.get('v') == 0:
+                            v = x['d']
             if v is None:
                 continue
             shares = any(m['k'] == 'CXXOperatorCallExpr' and m.get('op') == '=' and len(m.get('args', [])) == 2 and
@@ -201,6 +201,18 @@ def run_fired(unit, em):
             def edge(cn, cond=cond, fe=fired_edge):
                 return fe if strip(cn) is cond else None
             def records(x, who=who):
+                if x['k'] in ('CXXOperatorCallExpr', 'CallExpr') and x.get('args'):
+                    # through a local lambda / helper that inserts the state it is given (`markReachable(info->state_)`)
+                    from .prov import callee_view
+                    cv = callee_view(unit, fn, x)
+                    if cv:
+                        pds, hbody, _, actual = cv
+                        for i, a_ in enumerate(actual):
+                            rp = root_path(a_)
+                            if i < len(pds) and rp and who and rp[0] == who[0] and rp[-1] == 'state_':
+                                if any(y['k'] == 'CXXMemberCallExpr' and method_name(y) in ('insert', 'emplace') and y.get('args') and (strip(y['args'][0]) or {}).get('d') == pds[i] for y in walk(hbody)):
+                                    return True
+                    return False
                 if x['k'] != 'CXXMemberCallExpr' or method_name(x) not in ('insert', 'emplace') or not x.get('args'):
                     return False
                 rp = root_path(x['args'][0])
@@ -208,7 +220,7 @@ def run_fired(unit, em):
             def leaves(x, c=c):
                 return x['k'] in ('GotoStmt', 'BreakStmt', 'ReturnStmt') or x is c
             pos = cfg.locate(cond)
-            ok, w = must_pass_through(cfg, pos, leaves, records, start_after=False, edge_filter=edge) if pos else (False, None)
+            ok, w = must_pass_through(cfg, pos, leaves, records, start_after=True, edge_filter=edge) if pos else (False, None)   # start behind the test itself (the test is also the loop's next target)
             if ok:
                 em.ok(c, unit.text(c, 50), 'the parent state of an enabled rule is recorded as reached before the loop is left or continues', 'fired')
             else:
